@@ -84,7 +84,9 @@ def assign_versions(rng, ns, mode):
             continue
         u = x["u"]
         g += 1
-        if mode == "session":
+        if mode == "canonical":
+            cur[u] = 1 if x["k"] == "o" else cur.get(u, 0) + 1
+        elif mode == "session":
             cur[u] = 1 if x["k"] == "o" else cur.get(u, 0) + rng.choice([1, 1, 1, 2, 5])
         elif mode == "low-reopen":
             cur[u] = rng.randrange(0, 3) if x["k"] == "o" else cur.get(u, 0) + 1
@@ -120,11 +122,35 @@ def gen_sessions_burst(rng, nuris):
     return ns
 
 
+def canonical_burst(which, counter):
+    """fixed bursts sent first in every session: open v1, change v2..v4, close, reopen v1, change v2 — for an on-disk
+    document (0), an editor-only document (2), and both interleaved"""
+    def stream(u):
+        return [{"k": "o", "u": u}, {"k": "c", "u": u}, {"k": "c", "u": u}, {"k": "c", "u": u}, {"k": "x", "u": u},
+                {"k": "o", "u": u}, {"k": "c", "u": u}]
+    if which == 0:
+        ns = stream(0)
+    elif which == 1:
+        ns = stream(2)
+    else:
+        a, b = stream(1), stream(3)
+        ns = [x for pair in zip(a, b) for x in pair]
+    for x in ns:
+        if x["k"] in ("o", "c"):
+            counter[0] += 1
+            x["t"] = counter[0]
+    assign_versions(None, ns, "canonical")
+    for x in ns:
+        x["vmode"] = "session"
+    return ns
+
+
 def gen_burst(rng, nuris, counter, long=False):
     n = rng.randrange(2, 12 if long else 8)
     ns = []
     shape = rng.random()
-    if shape < 0.35:
+    reopen_shape = shape < 0.35
+    if reopen_shape:
         ns = gen_sessions_burst(rng, nuris)
     elif shape < 0.55:   # the canonical race: open immediately followed by changes
         u = rng.randrange(nuris)
@@ -142,7 +168,7 @@ def gen_burst(rng, nuris, counter, long=False):
         if x["k"] in ("o", "c"):
             counter[0] += 1
             x["t"] = counter[0]
-    mode = rng.choice(VERSION_MODES)
+    mode = rng.choice(["session", "session", "session", "low-reopen"] if reopen_shape and rng.random() < 0.8 else VERSION_MODES)
     assign_versions(rng, ns, mode)
     for x in ns:
         x["vmode"] = mode
@@ -168,7 +194,7 @@ def c27_session(rep, seed, sched_seed, bursts, long=False):
             return
         for b in range(bursts):
             uris = [path_uri(os.path.join(ws, f"b{b}_f{i}.lua")) for i in range(NURIS)]
-            ns = gen_burst(rng, NURIS, counter, long)
+            ns = canonical_burst(b, counter) if b < 3 else gen_burst(rng, NURIS, counter, long)
             for x in ns:
                 if "t" in x:
                     x["text"] = text_of(x["t"])
